@@ -80,6 +80,19 @@ func caseChainID(c *vf.Ctx, i int) {
 	if got := types.DecodeChainIdVersion(mk); got != v {
 		a.viol("rt/chainid/makechainid-version", fmt.Sprintf("DecodeChainIdVersion(MakeChainId(cid,%d)) = %d", v, got))
 	}
+	// the chain id a child's is derived from is the PARENT header's own slice: it must stay what it was
+	// (otherwise the parent block in memory silently gets another version, another digest, a bad signature)
+	if !bytes.Equal(b, orig) {
+		a.viol("rt/chainid/makechainid-rewrites-its-input", fmt.Sprintf("MakeChainId(cid, %d) changed the chain id it was given: version prefix %x -> %x", v, orig[:4], b[:4]))
+		copy(b, orig)
+	} else if v != types.DecodeChainIdVersion(orig) && len(mk) > 0 {
+		mk[0] ^= 0xff
+		if !bytes.Equal(b, orig) {
+			a.viol("rt/chainid/makechainid-result-aliases-input", "the slice returned by MakeChainId shares memory with its argument")
+			copy(b, orig)
+		}
+		mk[0] ^= 0xff
+	}
 	if !types.ChainIdEqualWithoutVersion(mk, orig) || !bytes.Equal(mk[4:], orig[4:]) {
 		a.viol("rt/chainid/makechainid-rest", "MakeChainId changed bytes other than the version prefix")
 	}
